@@ -286,6 +286,10 @@ class Rank:
 
         """
 
+        # The fibers no longer belong to this rank
+        for fiber in self.fibers:
+            fiber.setOwner(None)
+
         self.fibers = []
 
     #
